@@ -81,6 +81,78 @@ fn mutate(r: &mut Prng, s: &str) -> String {
     String::from_utf8_lossy(&b).to_string()
 }
 
+
+/// structure-aware mutants: every string VALUE of the document (first occurrences per key) replaced by
+/// each of its short prefixes, by itself with a multi-byte character inserted at each early offset, by
+/// the empty string and by a long string — the inputs on which slicing / `split_at` / prefix handling of
+/// hand-written deserialisers goes wrong
+fn string_mutants(doc: &serde_json::Value, per_key: usize) -> Vec<String> {
+    use serde_json::Value;
+    fn walk(v: &Value, path: &mut Vec<String>, key: &str, seen: &mut std::collections::BTreeMap<String, usize>, per_key: usize, out: &mut Vec<(Vec<String>, String)>) {
+        match v {
+            Value::String(s) => {
+                let n = seen.entry(key.to_string()).or_insert(0);
+                if *n < per_key {
+                    *n += 1;
+                    out.push((path.clone(), s.clone()));
+                }
+            }
+            Value::Array(a) => {
+                for (i, x) in a.iter().enumerate() {
+                    path.push(format!("#{}", i));
+                    walk(x, path, key, seen, per_key, out);
+                    path.pop();
+                }
+            }
+            Value::Object(o) => {
+                for (k, x) in o.iter() {
+                    path.push(k.clone());
+                    walk(x, path, k, seen, per_key, out);
+                    path.pop();
+                }
+            }
+            _ => {}
+        }
+    }
+    fn set(v: &mut Value, path: &[String], new: &str) {
+        if path.is_empty() {
+            *v = Value::String(new.to_string());
+            return;
+        }
+        let head = &path[0];
+        if let Some(i) = head.strip_prefix('#').and_then(|x| x.parse::<usize>().ok()) {
+            if let Value::Array(a) = v {
+                if i < a.len() {
+                    set(&mut a[i], &path[1..], new);
+                }
+                return;
+            }
+        }
+        if let Value::Object(o) = v {
+            if let Some(x) = o.get_mut(head) {
+                set(x, &path[1..], new);
+            }
+        }
+    }
+    let mut sites = vec![];
+    walk(doc, &mut vec![], "", &mut Default::default(), per_key, &mut sites);
+    let mut out = vec![];
+    for (path, s) in sites {
+        let mut variants: Vec<String> = vec![String::new(), "x".repeat(300)];
+        let bounds: Vec<usize> = s.char_indices().map(|(i, _)| i).chain(std::iter::once(s.len())).collect();
+        for &b in bounds.iter().take(24) {
+            variants.push(s[..b].to_string());
+            variants.push(format!("{}\u{e9}{}", &s[..b], &s[b..]));
+        }
+        for var in variants {
+            let mut d = doc.clone();
+            set(&mut d, &path, &var);
+            out.push(d.to_string());
+        }
+    }
+    out
+}
+
 pub fn run(ctx: &Ctx) -> Report {
     let mut rep = Report::new(
         "c20-json",
@@ -138,6 +210,34 @@ pub fn run(ctx: &Ctx) -> Report {
                     json!({"kind": if is_bp {"blueprint"} else {"aiken.toml"}, "text": text}),
                     json!({"panic": msg}),
                 );
+            }
+        }
+    }
+    // structure-aware string mutants of the blueprints
+    let n_docs = if ctx.thorough { bp_texts.len() } else { bp_texts.len().min(3) };
+    for (di, text) in bp_texts.iter().take(n_docs).enumerate() {
+        let doc: serde_json::Value = match serde_json::from_str(text) {
+            Ok(d) => d,
+            Err(_) => continue,
+        };
+        for t in string_mutants(&doc, if ctx.thorough { 6 } else { 2 }) {
+            rep.evaluations += 1;
+            rep.nontrivial.insert(format!("{:x}", fxhash(&t)));
+            let t2 = t.clone();
+            let outcome = guarded(AssertUnwindSafe(move || {
+                serde_json::from_str::<aiken_project::blueprint::Blueprint>(&t2).map(|_| ()).map_err(|e| e.to_string())
+            }));
+            match outcome {
+                Ok(Ok(())) => rep.count("blueprint-string-mutant:ok"),
+                Ok(Err(_)) => rep.count("blueprint-string-mutant:err"),
+                Err(msg) => {
+                    rep.count("panic");
+                    // one witness per panic message and document
+                    let key = format!("c20-json:panic:blueprint-string:{}:{:x}", di, fxhash(&msg.split('`').step_by(2).collect::<String>().chars().filter(|c| !c.is_ascii_digit()).collect::<String>()));
+                    if !rep.property_failures.iter().any(|f| f["key"] == key.as_str()) {
+                        rep.fail(&key, "loading malformed input panicked", json!({"kind": "blueprint", "text": t}), json!({"panic": msg}));
+                    }
+                }
             }
         }
     }
